@@ -663,6 +663,46 @@ pub fn rbytes(rng: &mut Rng, n: usize, mode: u64) -> Vec<u8> {
         })
         .collect()
 }
+/// special values for 4-byte id fields: the property quantifies over "any counter and id bytes", so patterns an
+/// implementation might treat specially must be frequent: all zero, all 0xff, leading / trailing zero, ASCII with
+/// an embedded NUL, the storage header's own ECU id, and (rarely: they put the stream outside the recovery
+/// theorem's domain, where only model and code are compared) the frame markers themselves
+pub fn special4(rng: &mut Rng, secu: &[u8; 4]) -> [u8; 4] {
+    let x = |rng: &mut Rng| rng.range(0x41, 0x5a) as u8;
+    match rng.below(13) {
+        0 | 1 => [0, 0, 0, 0],
+        2 | 3 => [0xff; 4],
+        4 => [0, x(rng), x(rng), x(rng)],
+        5 => [x(rng), x(rng), x(rng), 0],
+        6 => [x(rng), 0, x(rng), 0],
+        7 => [x(rng), x(rng), 0, 0],
+        8 | 9 | 10 => *secu,
+        11 => *b"DLT\x01",
+        _ => *b"DLS\x01",
+    }
+}
+/// an id field: with probability 1/6 a special value, else as before
+pub fn id4(rng: &mut Rng, secu: &[u8; 4]) -> [u8; 4] {
+    if rng.chance(1, 6) {
+        special4(rng, secu)
+    } else {
+        r4(rng)
+    }
+}
+pub fn num32(rng: &mut Rng) -> u32 {
+    if rng.chance(1, 6) {
+        *rng.pick(&[0u32, u32::MAX, 1, 0x0100_0000, 0x00ff_ffff])
+    } else {
+        match rng.below(4) { 0 => 0, 1 => u32::MAX, _ => rng.next() as u32 }
+    }
+}
+pub fn byte8(rng: &mut Rng) -> u8 {
+    if rng.chance(1, 6) {
+        *rng.pick(&[0u8, 255])
+    } else {
+        rng.below(256) as u8
+    }
+}
 pub fn gen_msg(rng: &mut Rng, max_payload: usize) -> AMsg {
     let htyp = match rng.below(6) {
         0 => 0x20 | (rng.below(32) as u8),
@@ -673,19 +713,21 @@ pub fn gen_msg(rng: &mut Rng, max_payload: usize) -> AMsg {
     let n = rng.size(max_payload as u64) as usize;
     let mode = rng.below(4);
     let payload = if n == 0 { vec![] } else { vec![(1u64, rbytes(rng, n, mode))] };
+    // the storage header's ECU id first (its own special pool: no "own value" there)
+    let secu = if rng.chance(1, 6) { special4(rng, &[0, 0, 0, 0]) } else { r4(rng) };
     AMsg {
-        secs: match rng.below(4) { 0 => 0, 1 => u32::MAX, _ => rng.next() as u32 },
-        micros: match rng.below(5) { 0 => 0, 1 => 999_999, 2 => u32::MAX, 3 => rng.next() as u32, _ => rng.below(1_000_000) as u32 },
-        secu: r4(rng),
+        secs: num32(rng),
+        micros: if rng.chance(1, 6) { *rng.pick(&[0u32, 999_999, 1_000_000, u32::MAX]) } else { match rng.below(5) { 0 => 0, 1 => 999_999, 2 => u32::MAX, 3 => rng.next() as u32, _ => rng.below(1_000_000) as u32 } },
+        secu,
         htyp,
-        mcnt: rng.below(256) as u8,
-        ecu: r4(rng),
-        sid: r4(rng),
-        ts: match rng.below(4) { 0 => 0, 1 => u32::MAX, _ => rng.next() as u32 },
-        vmm: rng.below(256) as u8,
-        noar: rng.below(256) as u8,
-        apid: r4(rng),
-        ctid: r4(rng),
+        mcnt: byte8(rng),
+        ecu: id4(rng, &secu),
+        sid: id4(rng, &secu),
+        ts: num32(rng),
+        vmm: byte8(rng),
+        noar: byte8(rng),
+        apid: id4(rng, &secu),
+        ctid: id4(rng, &secu),
         payload,
     }
 }
@@ -935,6 +977,38 @@ pub fn heuristic_product(sink: &mut Sink) {
     }
 }
 
+/// every special id / counter pattern in every id-like field, for header shapes with and without each optional part
+pub fn special_product(sink: &mut Sink) {
+    let secu = *b"ECU1";
+    let pool: [[u8; 4]; 8] = [[0; 4], [0xff; 4], [0, b'B', b'C', b'D'], [b'A', b'B', b'C', 0], [b'A', 0, b'C', 0], [b'A', b'B', 0, 0], secu, [0, 0, 0, 1]];
+    for f in 0..2u8 {
+        for htyp in [0x3fu8, 0x24, 0x2c, 0x35, 0x21, 0x38] {
+            for k in 0..pool.len() * 4 {
+                // rotation r: every pool value visits every id field
+                let (k, r) = (k % pool.len(), k / pool.len());
+                let sp = &pool[(k + r) % pool.len()];
+                let mut m1 = plain(htyp, b"ab");
+                m1.secu = secu;
+                m1.ecu = pool[(k + r) % pool.len()];
+                m1.sid = pool[(k + r + 1) % pool.len()];
+                m1.apid = pool[(k + 2 * r + 2) % pool.len()];
+                m1.ctid = pool[(k + 3 * r + 3) % pool.len()];
+                m1.mcnt = if k % 2 == 0 { 0 } else { 255 };
+                m1.ts = if k % 3 == 0 { 0 } else if k % 3 == 1 { u32::MAX } else { 1 };
+                m1.noar = if k % 2 == 0 { 0 } else { 255 };
+                m1.vmm = if k % 4 < 2 { 0 } else { 255 };
+                let mut m2 = plain(htyp, b"");
+                m2.secu = *sp; // special storage-header ECU as well
+                m2.ecu = secu;
+                m2.secs = if k % 2 == 0 { 0 } else { u32::MAX };
+                m2.micros = if k % 2 == 0 { u32::MAX } else { 0 };
+                let parts = vec![Part::G(vec![(1, vec![0x11, 0x22])]), Part::M(m1), Part::M(m2), Part::G(vec![(1, vec![0x33])])];
+                record(sink, Input::Stream { framing: f, start: 7, parts }, &["special_product"]);
+            }
+        }
+    }
+}
+
 pub fn near_max(sink: &mut Sink, rng: &mut Rng) {
     for f in 0..2u8 {
         for htyp in [0x20u8, 0x3f] {
@@ -1001,6 +1075,7 @@ fn main() {
         corpus(&mut sink);
         near_max(&mut sink, &mut rng);
         heuristic_product(&mut sink);
+        special_product(&mut sink);
         flag_product(&mut sink, &mut rng, false);
     }
     let n = a.count.unwrap_or(if quick { 360 } else if a.tier == "search" { 1500 } else { 6000 });
